@@ -175,7 +175,7 @@ func allTexts(texts map[string]string) string {
 	return b.String()
 }
 
-var c10Cfg = func() *Cfg { c := DefaultCfg(); c.QuoteStrings = true; return c }()
+var c10Cfg = func() *Cfg { c := DefaultCfg(); c.QuoteStrings = true; c.Twins = true; return c }()
 
 var c10Prop = ev.Prop("c10.roundtrip", genProgCase(c10Cfg), checkC10, classifyC10, sampleProg)
 
